@@ -139,7 +139,21 @@ def _listargs(msg):
     return rec.InjectedError(msg, [3, 17], {"column": "x"})
 
 
+class QuotaError(Exception):
+    """an application exception whose constructor signature is not its args (it formats a message from two fields): type(e)(*e.args) raises TypeError,
+    so it cannot be copied, pickled or re-created - only passed on as the object it is"""
+
+    def __init__(self, user, limit):
+        super().__init__(f"{user} is over the limit of {limit}")
+        self.user, self.limit = user, limit
+
+
+def _ctorargs(msg):
+    return QuotaError(msg, 3)
+
+
 EXC_KINDS = {
+    "ctorargs": _ctorargs,
     "listargs": _listargs,
     "falsy": FalsyError,
     "falsybase": FalsyBase,
